@@ -124,6 +124,10 @@ def item(flow):
         st.tuples(st.just('pass'), st.sampled_from(PASS), flow, inner, inner),
         st.tuples(st.just('pass'), st.sampled_from(PASS), flow, inner, inner),
         st.tuples(st.just('special'), st.sampled_from(SPECIAL)),
+        # the whole argument of a known macro is one control word that yields text (seeded change C05-C)
+        st.tuples(st.just('pass'), st.sampled_from(PASS),
+                  st.sampled_from([(r'\LaTeX', 'LaTeX'), (r'\TeX', 'TeX'), (r'\ss', 'ß'), (r'\o', 'ø')]).map(lambda g: [(' ', ('gen', g))]),
+                  st.just(''), st.just('')),
         st.tuples(st.just('head'), st.sampled_from(HEAD), st.booleans(), np_flow),
         st.tuples(st.just('foot'), st.sampled_from(FOOT), flow, inner, inner),
         st.tuples(st.just('cite'), np_flow),
